@@ -579,7 +579,9 @@ def every_field_recorded(check: Check, repo: Repo, rule: str = "FIELDS-RECORDED"
         return
     goal_avoid = {n for c in appends for n in cfg.node_for_expr(c)}
     head = cfg.nodes_of(loops[0])[0]
-    start = cfg.nodes_of(arm.body[0])[0]
+    from rules.language_rules import _first_cfg_node
+
+    start = _first_cfg_node(cfg, arm.body[0])
     path = cfg.find_path(start, lambda nd: nd is head or nd is cfg.exit, follow=no_exc, avoid=lambda nd: nd in goal_avoid)
     check.ob(rule, appends[0], "collect_fields_and_fragment_spreads: every FieldNode is appended to the field map", path is None,
              "every normal path through the FieldNode arm passes the append" if path is None else
